@@ -363,6 +363,8 @@ structure DS where
   frameTree : STree := .node 0 0 0 []
   focusMoved : Bool := false     -- a focus change since the last `upd`
   hover : List Nat := []
+  /-- the pointer position the IMPLEMENTATION was last given (op inputs: `mouse c r`; cleared by `mexit 1`) -/
+  ptr : Option (Int × Int) := none
   deriving Inhabited
 
 def fuelDefault : Nat := 40
@@ -468,7 +470,7 @@ def stepState (d : DS) (toks : Toks) (impl : String) : Option (DS × String) := 
         else some s!"FAIL mouse-routing: calls do not follow capture/target/bubble over hit list {hitsStr now.h}"
     let (cm, hov) := commonChecks pf d.prev.x d.hover script [] now
       (if now.e then none else if now.h.isEmpty then none else some false) fails
-    pure ({ d with model := m, prev := now, hover := hov },
+    pure ({ d with model := m, prev := now, hover := hov, ptr := some (c, r) },
       s!"{stateStr m merr}\t{impl}\t{firstMsg [hitMsg, routeMsg, cm, pinvMsg d.root d.lastTree now]}")
   | "mupd" :: rest =>
     let (t, rest) ← pHoverTree "T" rest
@@ -479,7 +481,7 @@ def stepState (d : DS) (toks : Toks) (impl : String) : Option (DS × String) := 
     let hitMsg : Option String :=
       if now.e then none else
       if !d.prev.m then (if now.h != d.prev.h then some "FAIL hit: no pointer but hit list changed" else none)
-      else match d.model.mouse with
+      else match d.ptr with      -- from the op inputs, not from the model's state
         | some (c, r) =>
           let wantHits := underRoot t c r
           if now.h != wantHits then some s!"FAIL hit: hit list {hitsStr now.h} but surfaces under the pointer are {hitsStr wantHits}" else none
@@ -497,7 +499,7 @@ def stepState (d : DS) (toks : Toks) (impl : String) : Option (DS × String) := 
     let closeMsg : Option String :=
       if now.e then none else
       if !hov.isEmpty ∨ !now.h.isEmpty then some s!"FAIL hover: widgets {hov} still entered after the pointer left" else none
-    pure ({ d with model := m, prev := now, hover := hov },
+    pure ({ d with model := m, prev := now, hover := hov, ptr := if cl = "1" then none else d.ptr },
       s!"{stateStr m merr}\t{impl}\t{firstMsg [cm, closeMsg, pinvMsg d.root d.lastTree now]}")
   | "tfin" :: rest =>
     -- the vaxis.FocusIn arm of Run: mouseHandler.mouseEnter(root)
